@@ -212,10 +212,20 @@ func runReplays(bin, work string, paths []string) ([]replayResult, error) {
 	defer cancel()
 	cmd := exec.CommandContext(ctx, bin, "-test.run", "^TestReplay$", "-test.timeout", "0")
 	cmd.Dir = dir
-	cmd.Env = append(os.Environ(), "VERIF_OUT="+dir, "VERIF_REPLAY="+strings.Join(paths, ":"), "VERIF_KNOWN="+filepath.Join(root, "KNOWN_FINDINGS.txt"))
+	cmd.Env = append(os.Environ(), "VERIF_OUT="+dir, "VERIF_REPLAY="+strings.Join(paths, ":"), "VERIF_KNOWN="+filepath.Join(root, "KNOWN_FINDINGS.txt"), "GORACE=halt_on_error=1 exitcode=66")
 	out, err := cmd.CombinedOutput()
 	b, rerr := os.ReadFile(filepath.Join(dir, "replay-results.json"))
 	if rerr != nil {
+		if len(paths) == 1 {
+			if fl, _ := filepath.Glob(filepath.Join(dir, "inflight-*.json")); len(fl) > 0 {
+				// the single replayed case aborted the process (e.g. the race detector reported a data race)
+				var rf replayFile
+				if fb, e := os.ReadFile(paths[0]); e == nil {
+					_ = json.Unmarshal(fb, &rf)
+				}
+				return []replayResult{{Path: paths[0], Property: rf.Property, Check: rf.Check, Violated: true, Message: "process aborted during replay:\n" + tail(out, 1500)}}, nil
+			}
+		}
 		return nil, fmt.Errorf("replay run produced no results (%v): %s", err, tail(out, 2000))
 	}
 	var res []replayResult
@@ -239,7 +249,7 @@ func doReplay(path string, keep bool) int {
 	if !keep {
 		defer os.RemoveAll(work)
 	}
-	bin, _ := build(work, false)
+	bin, _ := build(work, props[rf.Property].Race)
 	res, err := runReplays(bin, work, []string{abs})
 	if err != nil || len(res) != 1 {
 		fmt.Printf("INFRASTRUCTURE: %v\n", err)
@@ -384,6 +394,13 @@ func runProperty(id string, p propSpec, tier string, seed uint64, keep bool) int
 			continue
 		}
 		fails, _ := filepath.Glob(filepath.Join(r.dir, "fail-*.json"))
+		if len(fails) == 0 {
+			// a case that killed the process (race detector abort, fatal error) leaves its arguments behind
+			fails, _ = filepath.Glob(filepath.Join(r.dir, "inflight-*.json"))
+			if len(fails) > 0 {
+				fmt.Printf("shard %d aborted (exit %d):\n%s\n", r.idx, r.exit, tail(r.output, 2500))
+			}
+		}
 		if len(fails) == 0 {
 			infra = fmt.Sprintf("shard %d exited %d without a replay file:\n%s", r.idx, r.exit, tail(r.output, 3000))
 			continue
